@@ -37,6 +37,8 @@ METHODS = ["sun", "dawn", "sunrise", "noon", "sunset", "dusk", "midnight", "dayl
            "blue_hour", "solar_azimuth", "solar_elevation", "solar_zenith", "moon_phase"]
 TZ_NAMES = ["Europe/London", "Asia/Tokyo", "Pacific/Apia", "America/New_York", "Asia/Kolkata",
             "Pacific/Kiritimati", "UTC"]
+# zones whose offset had a seconds part inside 1900-1972 (local mean time eras)
+OLD_TZ_NAMES = ["Africa/Monrovia", "Europe/Amsterdam", "Europe/Dublin", "America/Bogota"]
 
 
 class Recorder:
@@ -123,9 +125,12 @@ def gen_location(rng, n, tier="quick"):
     i = 0
     while i < n:
         info = LocationInfo(rng.choice(["A", "Greenwich", "x y"]), rng.choice(["R", "England", ""]),
-                            rng.choice(TZ_NAMES), rng.uniform(-90, 90), rng.uniform(-180, 180))
+                            rng.choice(TZ_NAMES + OLD_TZ_NAMES), rng.uniform(-90, 90), rng.uniform(-180, 180))
         loc = Location(info)
         history = []
+        # what the object's zone must be by the property, tracked independently of the object:
+        # an accepted assignment sets it, a rejected one leaves it as it was
+        shadow_tz = info.timezone
         # one object, a history that interleaves attribute assignments and method calls
         # (reading .observer / .info in between): stale per-object caches show up
         for _step in range(rng.randint(4, 14)):
@@ -141,9 +146,18 @@ def gen_location(rng, n, tier="quick"):
                         loc.longitude = v
                         history.append(("longitude", repr(v)))
                     elif k < 0.68:
-                        v = rng.choice(TZ_NAMES)
-                        loc.timezone = v
+                        v = rng.choice(TZ_NAMES + OLD_TZ_NAMES + ["Nowhere/Zone", "Europe/Lodnon", "Mars/Olympus"])
                         history.append(("timezone", v))
+                        valid = v in zoneinfo.available_timezones()
+                        history_prev_tz = shadow_tz
+                        st_, r_ = call(setattr, loc, "timezone", v)
+                        if valid:
+                            shadow_tz = v
+                        i += 1
+                        yield Case("Location.timezone", "set_timezone %s %s %s" % (S(history_prev_tz), S(v), B(valid)),
+                                   "%s %s" % (S(loc.timezone) if isinstance(loc.timezone, str) else "Xtz",
+                                              "ok" if st_ == "ok" else E(r_)),
+                                   {"history": list(history), "assigned": v, "valid": valid})
                     elif k < 0.85:
                         v = rng.choice(["civil", "nautical", "astronomical", Depression.CIVIL,
                                         Depression.NAUTICAL, Depression.ASTRONOMICAL, 7.5, 3, 18.0, "bogus"])
@@ -195,16 +209,18 @@ def gen_location(rng, n, tier="quick"):
                 pos = [el]
             dt_in = None
             if m in ("solar_azimuth", "solar_elevation", "solar_zenith"):
-                base = datetime.datetime(2021, rng.randint(1, 12), rng.randint(1, 28), rng.randint(0, 23),
+                # years in which some zones still had local-mean-time offsets with a seconds part
+                yr = rng.choice([2021, rng.randint(1900, 1972), rng.randint(1900, 1936), rng.randint(1900, 2099)])
+                base = datetime.datetime(yr, rng.randint(1, 12), rng.randint(1, 28), rng.randint(0, 23),
                                          rng.randint(0, 59), rng.randint(0, 59))
                 kind = rng.random()
                 if kind < 0.45:
                     dt_in = base
                 elif kind < 0.9:
-                    dt_in = base.replace(tzinfo=zoneinfo.ZoneInfo(rng.choice(TZ_NAMES)))
+                    dt_in = base.replace(tzinfo=zoneinfo.ZoneInfo(rng.choice(TZ_NAMES + OLD_TZ_NAMES)))
                 if dt_in is not None:
                     pos = [dt_in]
-            state = (loc.latitude, loc.longitude, loc.timezone, loc.solar_depression)
+            state = (loc.latitude, loc.longitude, shadow_tz, loc.solar_depression)
             with Recorder() as rec:
                 st, ret = call(getattr(loc, m), *pos, **kwargs)
             req = "loc_call %s %s %s %s %s %s %s %s %s %s" % (
